@@ -146,6 +146,8 @@ class C09(Check):
             return
         k = 0
         step = 4 if self.tier == "quick" else 1
+        if self.tier == "thorough" and (len(table) > 2 or any(x[2] or x[3] for x in table)):
+            step = 3       # second transition: a seed-rotated third
         for i, (n, v, lab, sfx) in enumerate(table):
             if lab is None:
                 for l in LABELS:
@@ -306,6 +308,10 @@ class C09(Check):
                 continue
             members = set(a.minors) | {k for k, t in g.removed.items() if t in a.minors}
             got_part.add(frozenset(members))
+        # a bare left fusion may stay a major allele of its own (when another fusion at the same break point carries
+        # core variants it is not expanded into partial alleles); the property exempts it from the partition
+        bare_names = {name for name, (stc, vs) in db.items() if isinstance(stc, tuple) and stc[0] == "left" and not core_of(vs)}
+        got_part = {grp for grp in got_part if not grp <= bare_names}
         if want_part != got_part:
             v.append(("catalogue/grouping", f"majors group database alleles as {sorted(map(sorted, got_part))[:6]}, "
                                             f"(structure, core set) gives {sorted(map(sorted, want_part))[:6]}"))
